@@ -846,3 +846,9 @@ def replay(ctx, doc):
     print("interleaved:", o[i]["rec"])
     print("alone      :", want["rec"])
     return o[i]["rec"] != want["rec"] or o[i]["tree"] != want["tree"]
+
+
+# the long-lived process: the same probe session after earlier sessions of the same server (props/history.py)
+from props import history as _history  # noqa: E402
+
+correspondence, search, replay = _history.attach(PID, correspondence, search, replay, pasts=None)
